@@ -276,7 +276,8 @@ def delay(*args):
 
     tDelayed = re.sub(clean, r'\1( t - (' + str(offset) + r') )\2', input)
 
-    return tDelayed if not initial else "self.delay( {},{},{},t)".format(tDelayed,offset,initial)
+    # a conditional expression, so that the delayed input is not evaluated for times before the start of the run
+    return tDelayed if not initial else "( ({}) if (t - self.starttime) < ({}) else ({}) )".format(initial,offset,tDelayed)
 
 
 def init_(args):
